@@ -5,6 +5,7 @@ from mirq.pat import match, find, strip_refs
 from rules.c14 import field_index
 from rules.c10 import fold
 from rules.c03 import sites
+from mirq.paths import Paths, Unsupported
 
 TRI = "embedded_graphics::primitives::triangle::Triangle"
 P = lambda i, n: ("param", i, n)
@@ -65,10 +66,12 @@ def triangle_edges(prog, rep):
     rep.sample({"rule": "R19.1", "edges_per_path": {str(k): sorted(v, key=str) for k, v in sets.items()}})
 
     co = prog.method1(TRI, "contains", "embedded_graphics::primitives::ContainsPoint")
-    ro = strip_refs(Origins(co).return_origin())
+    # every Line built by contains() and by helpers introduced by an edit (arguments expressed over contains' parameters)
+    from mirq.canon import Canon
     lines = []
-    for n, m in find(ro, ("call", "*Line::new", "_", ("?a", "?b"))):
-        lines.append((vertex_index(prog, m["?a"]), vertex_index(prog, m["?b"])))
+    for st in Canon(prog).sites(co, "new"):
+        if (st.t["f"].get("path") or "").endswith("Line::new") and len(st.args) == 2:
+            lines.append((vertex_index(prog, st.args[0]), vertex_index(prog, st.args[1])))
     ok = sorted(set(lines), key=str) == [(0, 1), (0, 2), (1, 2)]
     rep.check(ok, "R19.1", "contains:edges", "the border check of Triangle::contains must walk the same canonical edges (p1,p2), (p1,p3), (p2,p3) of the (y, x)-sorted vertices as the rasteriser; walks %s" % sorted(set(lines), key=str),
               at=co.span, fn=co.path, detail=sorted(set(lines), key=str))
@@ -88,53 +91,67 @@ def triangle_edges(prog, rep):
 
 
 def polyline_points(prog, rep):
+    """R19.2 on path summaries: a point of the current segment is passed on; when the segment is exhausted the next
+    two vertices are loaded (dropping exactly one vertex) and the item comes from the polyline iterator itself with
+    the shared joint skipped; without two more vertices the iteration ends without touching the state."""
     PT = "embedded_graphics::primitives::polyline::points::Points"
     nx = prog.method1(PT, "next", "core::iter::traits::iterator::Iterator")
     fidx = {f["name"]: i for i, f in enumerate(prog.adts[PT]["variants"][0]["fields"])}
-    cfg = CFG(nx.body)
-    selff = lambda n: ("field", ("deref", P(1, "self")), fidx[n])
+    selff = lambda n: ("field", P(1, "self"), fidx[n])
     probs = []
-    n_load = 0
-    for path in enum_paths(cfg, 0, None, 128):
-        po = Origins(nx, path=path)
-        loads = [k for k, b in enumerate(path) if nx.body["blocks"][b]["t"] and nx.body["blocks"][b]["t"]["k"] == "call" and nx.body["blocks"][b]["t"]["f"].get("path", "").endswith("Line::new")]
-        ret = po.return_origin()
-        if not loads:
+    n_load = n_pass = n_end = 0
+    adv_ok = True
+    try:
+        summs = Paths(prog).of(nx)
+    except Unsupported as e:
+        summs = []
+        probs.append("cannot summarise next(): %s" % e)
+    for sm in summs:
+        inner = [e[1] for e in sm.calls() if e[1][1].endswith(("::next",)) and e[1][3] and e[1][3][0] == selff("segment_iter")]
+        writes = sm.writes()
+        if not inner:
+            probs.append("a path does not ask the current segment first")
+            continue
+        iv = [fct[2] for fct in sm.facts if fct[0] == "variant" and fct[1][:4] == inner[0][:4]]
+        if iv == [("Some",)]:
+            n_pass += 1
+            if sm.ret != ("agg", "core::option::Option::Some", (("payload", inner[0][:4] if len(inner[0]) > 4 else inner[0]),)) and not (sm.ret[0] == "agg" and sm.ret[2] and sm.ret[2][0][0] == "payload" and sm.ret[2][0][1][:4] == inner[0][:4]):
+                probs.append("a point of the current segment is not passed on unchanged: %s" % show(sm.ret, maxd=4))
+            if writes or len(sm.effects) != 1:
+                probs.append("passing on a point of the current segment must not change the iterator")
+            continue
+        if iv != [("None",)]:
+            probs.append("a path does not distinguish whether the current segment has a point left")
+            continue
+        if not writes:
+            n_end += 1
+            if sm.ret != ("agg", "core::option::Option::None", ()) or len(sm.effects) != 1:
+                probs.append("the path without a further segment must end the iteration (None) without effects; returns %s" % show(sm.ret, maxd=3))
             continue
         n_load += 1
-        k = loads[0]
-        a = [strip_refs(x) for x in po.term_args(k)]
-        tr = strip_refs(selff("translate"))
-        ok_seg = all(match(x, ("call", "*Add>::add", "_", ("?v", tr))) is not None for x in a)
-        if ok_seg:
-            v0 = match(a[0], ("call", "*Add>::add", "_", ("?v", tr)))["?v"]
-            v1 = match(a[1], ("call", "*Add>::add", "_", ("?v", tr)))["?v"]
-            ok_seg = any(n[0] == "call" and n[1].endswith("split_first") for n in walk(v0)) and any(n[0] == "call" and n[1].endswith("::first") for n in walk(v1))
-        if not ok_seg:
-            probs.append("the next segment must be Line::new(start + translate, end + translate) of the next two vertices; found %s" % [show(x, maxd=4) for x in a])
-        # result after loading a segment: re-enter the polyline iterator (falls through zero-length segments)
-        r = ret
-        while r[0] in ("ref", "deref"):
-            r = r[1]
-        m = match(r, ("call", "?p", "?g", ("?recv", "?n")))
-        good = False
-        if m is not None and isinstance(m["?p"], str) and m["?p"].endswith("Iterator::nth") or (m is not None and "Iterator>::nth" in str(m["?p"])):
-            recv = m["?recv"]
-            while recv[0] in ("ref", "deref", "mut", "update"):
-                recv = recv[1]
-            good = recv == P(1, "self") and m["?n"] == ("const", 1) and "polyline::points::Points" in (str(m["?p"]) + str(m["?g"]))
+        sf = ("call", "*::split_first", "_", (selff("vertices"),))
+        start = ("field", ("payload", sf), 0)
+        rest = ("field", ("payload", sf), 1)
+        end = ("payload", ("call", "*::first", "_", (rest,)))
+        tr = selff("translate")
+        w = {repr(x[1]): x[2] for x in writes}
+        wv, ws = w.get(repr(selff("vertices"))), w.get(repr(selff("segment_iter")))
+        seg = ("call", "*::points", "_", (("call", "*Line::new", "_", (("call", "*Add>::add", "_", (start, tr)), ("call", "*Add>::add", "_", (end, tr)))),))
+        if len(writes) != 2 or wv is None or match(wv, rest) is None:
+            adv_ok = False
+        if ws is None or match(ws, seg) is None:
+            probs.append("the next segment must be Line::new(start + translate, end + translate) of the next two vertices; found %s" % (show(ws, maxd=5) if ws else None))
+        need = [("variant", x, ("Some",)) for x in ()]
+        has_guards = any(fct[0] == "variant" and fct[2] == ("Some",) and match(fct[1], sf) is not None for fct in sm.facts) and \
+            any(fct[0] == "variant" and fct[2] == ("Some",) and match(fct[1], ("call", "*::first", "_", (rest,))) is not None for fct in sm.facts)
+        if not has_guards:
+            probs.append("a segment is loaded without two remaining vertices")
+        # the item: the polyline iterator itself, joint skipped
+        re_enter = [e[1] for e in sm.calls() if e[1][1].split("::")[-1] == "nth" and e[1][3] and e[1][3][0] == P(1, "self") and e[1][3][1] == ("const", 1)]
+        good = len(re_enter) == 1 and sm.ret[0] == "call" and sm.ret[1] == re_enter[0][1] and sm.effects[-1][1] == re_enter[0]
         if not good:
-            # accepted alternative: loop (back edge) — not the case on an acyclic path; anything else is undecided/refuted
-            inner = any(n[0] == "call" and "line::points::Points" in n[1] and n[1].endswith(("::nth", "::next")) for n in walk(r))
+            innerpull = any(e[1][1].split("::")[-1] in ("nth", "next") and e[1][3] and e[1][3][0] == selff("segment_iter") for e in sm.calls()[1:])
             probs.append("after loading the next segment the item must come from the polyline iterator itself with the shared joint skipped (self.nth(1)), so that zero-length segments fall through; found %s%s"
-                         % (show(r, maxd=4), " — pulled from the inner segment iterator: iteration ends at a repeated vertex" if inner else ""))
-    rep.check(not probs and n_load >= 1, "R19.2", "polyline::Points::next", "; ".join(probs[:2]), at=nx.span, fn=nx.path)
-    # self.vertices = rest on the loading path
-    org = Origins(nx)
-    w = []
-    for bi in sorted(org.cfg.live_blocks()):
-        for si, s in enumerate(nx.body["blocks"][bi]["s"]):
-            if s["k"] == "assign" and s["place"]["l"] == 1 and any(isinstance(e, dict) and e.get("f") == fidx["vertices"] for e in s["place"]["p"]):
-                w.append(strip_refs(org._rvalue(s["rv"], bi, si)))
-    ok = len(w) == 1 and any(n[0] == "call" and n[1].endswith("split_first") for n in walk(w[0]))
-    rep.check(ok, "R19.2", "polyline::Points::advance", "each loaded segment must drop exactly the first remaining vertex (self.vertices = rest of split_first)", at=nx.span, fn=nx.path)
+                         % (show(sm.ret, maxd=4), " — pulled from the inner segment iterator: iteration ends at a repeated vertex" if innerpull else ""))
+    rep.check(not probs and n_load >= 1 and n_pass >= 1 and n_end >= 1, "R19.2", "polyline::Points::next", "; ".join(sorted(set(probs))[:2]) or "expected passing, loading and ending paths (%d/%d/%d)" % (n_pass, n_load, n_end), at=nx.span, fn=nx.path)
+    rep.check(adv_ok and n_load >= 1, "R19.2", "polyline::Points::advance", "each loaded segment must drop exactly the first remaining vertex (self.vertices = rest of split_first)", at=nx.span, fn=nx.path)
